@@ -31,6 +31,19 @@ Definition guard_operand_ok (c : guard_cfg) : bool :=
   match g_lhs c with GSqrt p => poly_eqb p horiz_sq_poly | GPoly _ => false end.
 Definition guard_cfg_ok (c : guard_cfg) : bool := guard_operator_ok c && guard_literal_ok c && guard_operand_ok c.
 
+(** One component of the angle computed by _to_angle: [degrees (atan2 y x)] (reduced modulo 360 some number of times), a
+    constant, or something the translator could not reify. *)
+Inductive comp_cfg := CAtan2 (y x : gexpr) | CConst (q : Q) | COther.
+(** -ac: minus the height of the forward row *)
+Definition neg_forz_poly : poly := [((-1)%Z, [AS 2])].
+(** The pitch is atan2(-forward.z, horizontal length of forward): total on every matrix (no asin/acos of a rounded entry),
+    and the same expression in both branches. *)
+Definition pitch_ok (c : comp_cfg) : bool :=
+  match c with
+  | CAtan2 (GPoly y) (GSqrt x) => poly_eqb y neg_forz_poly && poly_eqb x horiz_sq_poly
+  | _ => false
+  end.
+
 Definition polys_eqb (a b : list poly) : bool := list_eqb poly_eqb a b.
 Definition row_of {A} (i : nat) (l : list A) : list A := firstn 3 (skipn (3 * i) l).
 Definition alias_row_ok (i : nat) (a b : list poly) : bool := polys_eqb (row_of i a) (row_of i b).
@@ -51,4 +64,10 @@ Definition gexpr_den (s : mat) (e : gexpr) : R :=
 Definition cmp_den (c : gj_cmp) (a b : R) : Prop :=
   match c with CGt => a > b | CGe => a >= b | CLt => a < b | CLe => a <= b end.
 Definition guard_den (c : guard_cfg) (s : mat) : Prop := cmp_den (g_op c) (gexpr_den s (g_lhs c)) (Q2R (g_rhs c)).
+Definition comp_den (s : mat) (c : comp_cfg) (t : ta_comp) : Prop :=
+  match c, t with
+  | CAtan2 y x, TaAtan2 _ y' x' => gexpr_den s y = y' /\ gexpr_den s x = x'
+  | CConst q, TaConst c' => Q2R q = c'
+  | _, _ => False
+  end.
 Definition entries (m : mat) : list R := [aa m; ab m; ac m; ba m; bb m; bc m; ca m; cb m; cc m].
